@@ -375,6 +375,10 @@ def core_preconditions():
         # the constant on the left
         ["<=", "1", ["f", "?x"]], [">=", "1", ["f", "?x"]], ["<", "0.5", ["f", "?x"]], [">", "2", ["g"]], ["=", "1", ["f", "?x"]],
         ["<=", "-1", ["-", ["f", "?x"], ["g"]]],
+        # 0 and 1 as operands, on either side of each operator (neutral only on the right of - and /)
+        [">=", ["-", "0", ["f", "?x"]], "-5"], ["<=", ["/", "1", ["g"]], ["f", "?x"]], [">=", ["-", ["f", "?x"], "0"], ["g"]],
+        ["<", ["/", ["f", "?x"], "1"], ["g"]], [">", ["+", "0", ["f", "?x"]], ["*", "1", ["g"]]], ["<=", ["*", ["f", "?x"], "0"], ["g"]],
+        [">=", ["-", ["-", "0", ["g"]], ["/", "1", ["f", "?y"]]], "0"],
     ]
     for s in singles:
         out.append(("P2", ["and", s]))
@@ -503,6 +507,8 @@ def core_effects():
     out.append(("P0", ["and", ["r"], ["increase", ["g"], "1"]]))
     out.append(("P1", ["and", ["p", "?x"], ["forall", ["?z", "-", "t1"], ["when", ["q", "?z", "?x"], ["not", ["q", "?z", "?x"]]]]]))
     out.append(("P3", ["and", ["not", ["p", "?x"]], ["when", ["p", "?y"], ["p", "?x"]]]))
+    out.append(("P2", ["and", ["assign", ["f", "?x"], ["-", "0", ["g"]]], ["increase", ["f", "?y"], ["/", "1", ["g"]]]]))
+    out.append(("P2", ["and", ["decrease", ["g"], ["-", ["f", "?x"], "0"]], ["when", [">", ["-", "0", ["f", "?x"]], "1"], ["p", "?x"]]]))
     # a quantified effect whose variable has the name of an action parameter, over another type (a subtype / an unrelated type):
     # inside the effect the name is the quantified variable, with the quantifier's type
     out.append(("P2", ["and", ["forall", ["?x", "-", "t3"], ["when", ["not", ["p", "?x"]], ["p", "?x"]]]]))
